@@ -32,11 +32,32 @@ def _rat(q: Fraction):
     return sp.Rational(q.numerator, q.denominator)
 
 
+# Structural specialisations of the mass arguments (the same Symbol passed twice, a literal 0):
+# the functions are plain Python over SymPy objects, so these are distinct *programs*.
+PATTERNS = {
+    "generic": ("m1", "m2", "m3"),
+    "m1=m2": ("ma", "ma", "m3"),
+    "m2=m3": ("m1", "ma", "ma"),
+    "m1=m3": ("ma", "m2", "ma"),
+    "all-equal": ("ma", "ma", "ma"),
+    "m1=0": (0, "m2", "m3"),
+    "m2=0": ("m1", 0, "m3"),
+    "m3=0": ("m1", "m2", 0),
+    "m2=m3=0": ("m1", 0, 0),
+    "m1=m2,m3=0": ("ma", "ma", 0),
+}
+
+
+def _mass_args(pattern):
+    return [sp.Integer(0) if p == 0 else sp.Symbol(p, real=True) for p in PATTERNS[pattern]]
+
+
 # --------------------------------------------------------------------------- events
 def cfg_events(config, tier, seed):
     """All physical events, through rest-frame invariants (E1,E2,E3,a,b,c)."""
     ps = _lib()
-    ctx = Ctx("events")
+    pattern = config.split(":")[1] if ":" in config else "generic"
+    ctx = Ctx(config)
     E = [ctx.real(f"E{i}") for i in (1, 2, 3)]
     a, b, c = ctx.real("a"), ctx.real("b"), ctx.real("c")  # |p1|^2, |p2|^2, p1.p2
     p3sq = a + b + 2 * c
@@ -47,10 +68,14 @@ def cfg_events(config, tier, seed):
         ctx.assume(E[i] * E[i] >= psq[i])
     ctx.assume(c * c <= a * b)  # Cauchy-Schwarz: the only constraint between |p1|,|p2|,p1.p2
     # library symbols
-    s1, s2, m0, m1, m2, m3, outside = sp.symbols("sigma1 sigma2 m0 m1 m2 m3 outside", real=True)
+    s1, s2, m0, outside = sp.symbols("sigma1 sigma2 m0 outside", real=True)
+    m1, m2, m3 = _mass_args(pattern)
     tr = Translator(ctx, use_assumptions=False)
     mv = []
     for i, ms in enumerate((m1, m2, m3)):
+        if ms == 0:
+            ctx.assume(E[i] * E[i] == psq[i])
+            continue
         v = ctx.real(str(ms), derived=True)
         ctx.assume(z3.And(v >= 0, v * v == E[i] * E[i] - psq[i]))
         mv.append(v)
@@ -79,9 +104,7 @@ def cfg_events(config, tier, seed):
         msq = [Ev[0] ** 2 - av, Ev[1] ** 2 - bv, Ev[2] ** 2 - p3]
         subs = {
             m0: _rat(sum(Ev)),
-            m1: sp.sqrt(_rat(msq[0])),
-            m2: sp.sqrt(_rat(msq[1])),
-            m3: sp.sqrt(_rat(msq[2])),
+            **{ms: sp.sqrt(_rat(q)) for ms, q in zip((m1, m2, m3), msq) if ms != 0},
             s1: _rat((Ev[1] + Ev[2]) ** 2 - av),
             s2: _rat((Ev[0] + Ev[2]) ** 2 - bv),
             outside: sp.Integer(-7),
@@ -116,11 +139,14 @@ def _pdg_squared_form(s1, s2, q0, q1, q2, q3):
 
 def cfg_plane(config, tier, seed):
     ps = _lib()
-    ctx = Ctx("plane")
-    s1, s2, m0, m1, m2, m3, outside = sp.symbols("sigma1 sigma2 m0 m1 m2 m3 outside", real=True)
+    pattern = config.split(":")[1] if ":" in config else "generic"
+    ctx = Ctx(config)
+    s1, s2, m0, outside = sp.symbols("sigma1 sigma2 m0 outside", real=True)
+    m1, m2, m3 = _mass_args(pattern)
     tr = Translator(ctx, use_assumptions=False)
-    z = {str(s): ctx.real(str(s)) for s in (s1, s2, m0, m1, m2, m3, outside)}
-    zm0, zm1, zm2, zm3 = z["m0"], z["m1"], z["m2"], z["m3"]
+    z = {str(s): ctx.real(str(s)) for s in (s1, s2, m0, outside)}
+    zm0 = z["m0"]
+    zm1, zm2, zm3 = (z3.RealVal(0) if ms == 0 else ctx.real(str(ms)) for ms in (m1, m2, m3))
     ctx.assume(z3.And(zm1 >= 0, zm2 >= 0, zm3 >= 0, zm0 > zm1 + zm2 + zm3))
     zs1, zs2 = z["sigma1"], z["sigma2"]
     # bounding box
@@ -142,10 +168,11 @@ def cfg_plane(config, tier, seed):
     ]
 
     def replay(name, asg):
-        subs = {s: _rat(asg[str(s)]) for s in (s1, s2, m0, m1, m2, m3, outside)}
+        subs = {s: _rat(asg[str(s)]) for s in (s1, s2, m0, outside)}
+        subs.update({ms: _rat(asg[str(ms)]) for ms in (m1, m2, m3) if ms != 0})
         kv = _num(kib.doit(), subs)
         iv = _num(ind.doit(), subs)
-        q = [asg[f"m{i}"] ** 2 for i in range(4)]
+        q = [asg["m0"] ** 2] + [Fraction(0) if ms == 0 else asg[str(ms)] ** 2 for ms in (m1, m2, m3)]
         ins = bool(_pdg_squared_form(asg["sigma1"], asg["sigma2"], *q))
         lib_in = bool(kv <= 0)
         if name.startswith("indicator==1"):
@@ -175,10 +202,21 @@ def cfg_kallen(config, tier, seed):
     ctx.assume(z3.And(ctx.real("u") >= 0, ctx.real("w") >= 0))
     fact = tr((x - (u + w) ** 2) * (x - (u - w) ** 2))
     obs += identity_obligations("factorisation", tr(ps.Kallen(x, u**2, w**2).doit()), fact)
+    # literal-zero arguments (massless particle / threshold values inserted before unfolding)
+    zero_cases = {}
+    for mask in ((0, 1, 1), (1, 0, 1), (1, 1, 0), (0, 0, 1), (0, 1, 0), (1, 0, 0)):
+        args = [a if keep else sp.Integer(0) for a, keep in zip((x, y, zz), mask)]
+        name = "zero-args" + "".join(map(str, mask))
+        ref = args[0] ** 2 + args[1] ** 2 + args[2] ** 2 - 2 * args[0] * args[1] - 2 * args[1] * args[2] - 2 * args[2] * args[0]
+        zero_cases[name] = (ps.Kallen(*args), ref)
+        obs += identity_obligations(name, tr(ps.Kallen(*args).doit()), tr(ref))
 
     def replay(name, asg):
         subs = {s: _rat(asg.get(str(s), Fraction(0))) for s in (x, y, zz, u, w)}
-        if name.startswith("factorisation"):
+        if name.startswith("zero-args"):
+            l, r = zero_cases[name.split("::")[0]]
+            l = l.doit()
+        elif name.startswith("factorisation"):
             l, r = ps.Kallen(x, u**2, w**2).doit(), (x - (u + w) ** 2) * (x - (u - w) ** 2)
         else:
             perm = [{"x": x, "y": y, "z": zz}[ch] for ch in name.split("::")[0][len("symmetry") :]]
@@ -193,16 +231,22 @@ WORKERS = {"events": cfg_events, "plane": cfg_plane, "kallen": cfg_kallen}
 
 
 def worker(config, tier, seed):
-    return WORKERS[config](config, tier, seed)
+    return WORKERS[config.split(":")[0]](config, tier, seed)
+
+
+def configs(tier):
+    pats = list(PATTERNS) if tier == "thorough" else ["generic", "m2=m3", "all-equal", "m1=0", "m2=m3=0"]
+    return [f"events:{p}" for p in pats] + [f"plane:{p}" for p in pats] + ["kallen"]
 
 
 def main():
     ps = _lib()
     chk = Check("C20", __doc__)
-    chk.run(worker, list(WORKERS))
+    chk.run(worker, configs(chk.tier))
     chk.finish(
         functions=[ps.Kibble.evaluate, ps.Kallen.evaluate, ps.is_within_phasespace, ps.compute_third_mandelstam],
-        bounds={"configurations": "none enumerated: every numeric input is a solver variable"},
+        bounds={"configurations": "every numeric input is a solver variable; enumerated: structural argument patterns "
+                "(which mass arguments are the same Symbol / a literal 0) " + ", ".join(PATTERNS)},
         assumptions=[
             "events enter through rest-frame invariants (E1,E2,E3,|p1|^2,|p2|^2,p1.p2) with Cauchy-Schwarz; "
             "every function checked depends on the event through these only",
